@@ -6,7 +6,7 @@
     [model_ok]: the model's output equals the observation; [spec_ok]: the theorems' statements
     evaluated on the observation alone. *)
 From Coq Require Import List ZArith Bool Lia.
-From CM Require Import Lib.Str Lib.Wire Retry.Model.
+From CM Require Import Lib.Str Lib.Wire Gen.Consts Retry.Model.
 Import ListNotations.
 Open Scope Z_scope.
 
@@ -201,7 +201,7 @@ Record cacase := CACase { ca_ca : str; ca_test : str; ca_has_scheme : bool;
                           ca_dir0 : str; ca_dir1 : str; ca_using0 : bool; ca_using1 : bool }.
 
 Definition ca_model_ok (c : cacase) : bool :=
-  let norm := fun _ : str => ca_dir0 c in      (* newBasicACMEClient's URL rule, as observed *)
+  let norm := norm_url ca_scheme_sep ca_default_scheme in   (* secureCAURL's scheme rule, literals from the source *)
   str_eqb (directory_for norm (ca_ca c) (ca_test c) true) (ca_dir1 c) &&
   str_eqb (directory_for norm (ca_ca c) (ca_test c) false) (ca_dir0 c) &&
   Bool.eqb (using_test_ca (ca_test c) (ca_dir1 c)) (ca_using1 c) &&
@@ -216,9 +216,107 @@ Definition ca_spec_ok (c : cacase) : bool :=
   (* retries are tried against the test CA first when one is configured *)
   (is_empty_name (ca_test c) || str_eqb (ca_dir1 c) (ca_test c)).
 
+(** * end-to-end cases: the real ACMEIssuer against two mock ACME CAs (production, test)
+
+    Observed at the CAs and by signature checks, not through certmagic: for every call of Issue
+    the attempt number it was given, the orders the CAs received during the call (directory URL
+    of the CA that got it, scripted outcome: 0 certificate, 1 HTTP 429, 2 other refusal), the
+    class of the result, and which CA's key signed the certificate it returned; at the end what
+    the asynchronous obtain returned and who signed the certificate in storage / served. *)
+
+Record eord := EOrd { eo_dir : str; eo_out : Z }.
+Record eatt := EAtt { e_no : Z; e_orders : list eord; e_res : Z; e_from : Z }.
+Record ecase := ECase {
+  e_async : bool;
+  e_ca : str; e_test : str;            (* ACMEIssuer.CA / TestCA *)
+  e_prod_url : str; e_test_url : str;  (* directory URLs of the two mock CAs *)
+  e_atts : list eatt;
+  e_final : Z;                         (* 0 nil, 1 other error, 2 ErrNoRetry *)
+  e_stored : Z; e_served : Z           (* signer: 0 production CA, 1 test CA, -1 no certificate *)
+}.
+
+Definition e_norm : str -> str := norm_url ca_scheme_sep ca_default_scheme.
+Definition out_of (z : Z) : order_outcome := if z =? 0 then OrdOk else if z =? 1 then OrdRateLimited else OrdFail.
+Definition res_code (r : issue_result) : Z := match r with ICert _ => 0 | IErr => 1 | IErrNoRetry => 2 end.
+Definition signer_code (c : ecase) (r : issue_result) : Z :=
+  match r with
+  | ICert d => if str_eqb d (e_prod_url c) then 0 else if str_eqb d (e_test_url c) then 1 else 7
+  | _ => -1
+  end.
+
+Definition eatt_model_ok (c : ecase) (a : eatt) : bool :=
+  let '(ds, r) := issue e_norm (e_ca c) (e_test c) (e_no a) (map (fun o => out_of (eo_out o)) (e_orders a)) in
+  strs_eqb ds (map eo_dir (e_orders a)) && (res_code r =? e_res a) && (signer_code c r =? e_from a).
+
+(** the retry loop around Issue: attempt numbers count up from [k]; it goes on exactly while
+    the result is a retryable error; returns the last attempt *)
+Fixpoint echain (k : Z) (l : list eatt) : bool * option eatt :=
+  match l with
+  | [] => (true, None)
+  | [a] => (e_no a =? k, Some a)
+  | a :: r => let (ok, last) := echain (k + 1) r in ((e_no a =? k) && (e_res a =? 1) && ok, last)
+  end.
+
+Definition e2e_model_ok (c : ecase) : bool :=
+  forallb (eatt_model_ok c) (e_atts c) &&
+  (let k0 := match e_atts c with a :: _ => if e_async c then 0 else e_no a | [] => 0 end in
+   let (ok, last) := echain k0 (e_atts c) in
+   ok &&
+   match last with
+   | Some a =>
+       (* Issue called directly: one call; its result is the case's result *)
+       (e_async c || (length (e_atts c) =? 1)%nat) &&
+       (if e_res a =? 0 then (e_final c =? 0) && (e_stored c =? e_from a) && (e_served c =? e_from a)
+        else if e_res a =? 2 then (e_final c =? 2) && (e_stored c =? -1) && (e_served c =? -1)
+        else (* a retryable error can only be the end when Issue was called directly *)
+             negb (e_async c) && (e_final c =? 1) && (e_stored c =? -1))
+   | None => false
+   end).
+
+(** the property on the observation alone *)
+Fixpoint test_ok_followed (c : ecase) (l : list eord) : bool :=
+  match l with
+  | [] => true
+  | o :: r =>
+      (if str_eqb (eo_dir o) (e_test_url c) && (eo_out o =? 0)
+       then match r with o' :: _ => str_eqb (eo_dir o') (e_prod_url c) | [] => false end
+       else true) && test_ok_followed c r
+  end.
+
+Fixpoint enumbers (k : Z) (l : list eatt) : bool :=
+  match l with [] => true | a :: r => (e_no a =? k) && enumbers (k + 1) r end.
+
+Definition e2e_spec_ok (c : ecase) : bool :=
+  let distinct := negb (is_empty_name (e_test c)) && negb (str_eqb (e_ca c) (e_test c)) in
+  (* the harness configured the production CA as CA and, when distinct, the test CA as TestCA *)
+  str_eqb (e_ca c) (e_prod_url c) && (negb distinct || str_eqb (e_test c) (e_test_url c)) &&
+  (* never a certificate of the test CA: not returned, not stored, not served *)
+  forallb (fun a => negb (e_from a =? 1)) (e_atts c) && negb (e_stored c =? 1) && negb (e_served c =? 1) &&
+  (negb distinct ||
+   forallb (fun a =>
+     (* success on the test CA is followed by a production order in the same call *)
+     test_ok_followed c (e_orders a) &&
+     (* a retry goes to the test CA first, the first attempt to production *)
+     match e_orders a with
+     | o :: _ => str_eqb (eo_dir o) (if 0 <? e_no a then e_test_url c else e_prod_url c)
+     | [] => true
+     end &&
+     (* a certificate is returned only after a successful production order *)
+     Bool.eqb (e_res a =? 0) (existsb (fun o => str_eqb (eo_dir o) (e_prod_url c) && (eo_out o =? 0)) (e_orders a))) (e_atts c)) &&
+  (distinct || forallb (fun a => forallb (fun o => str_eqb (eo_dir o) (e_prod_url c)) (e_orders a)) (e_atts c)) &&
+  (* asynchronous: the attempt number goes up by one per attempt; retried until success or
+     a non-retryable error; nil only with a production certificate stored and served *)
+  (negb (e_async c) ||
+   (enumbers 0 (e_atts c) && forallb (fun a => e_res a =? 1) (removelast (e_atts c)) &&
+    match rev (e_atts c) with
+    | a :: _ => (e_res a =? e_final c) && negb (e_res a =? 1)
+    | [] => false
+    end &&
+    Bool.eqb (e_final c =? 0) (e_stored c =? 0) && Bool.eqb (e_final c =? 0) (e_served c =? 0))).
+
 (** * wire *)
 
-Inductive tcase := TRetry (c : rcase) | TJobs (c : jcase) | TCA (c : cacase).
+Inductive tcase := TRetry (c : rcase) | TJobs (c : jcase) | TCA (c : cacase) | TE2E (c : ecase).
 
 Definition get_zlist : dec (list Z) := get_list get_z.
 Definition get_oatt : dec oatt := (n <- get_z ;; s <- get_z ;; e <- get_z ;; o <- get_z ;; ret (OAtt n s e o))%Z.
@@ -234,17 +332,24 @@ Definition get_jcase : dec jcase := (m <- get_nat ;; l <- get_list get_jop ;; re
 Definition get_cacase : dec cacase :=
   (a <- get_str ;; t <- get_str ;; h <- get_bool ;; d0 <- get_str ;; d1 <- get_str ;; u0 <- get_bool ;; u1 <- get_bool ;;
    ret (CACase a t h d0 d1 u0 u1))%Z.
+Definition get_eord : dec eord := (d <- get_str ;; o <- get_z ;; ret (EOrd d o))%Z.
+Definition get_eatt : dec eatt := (n <- get_z ;; l <- get_list get_eord ;; r <- get_z ;; f <- get_z ;; ret (EAtt n l r f))%Z.
+Definition get_ecase : dec ecase :=
+  (m <- get_z ;; a <- get_str ;; t <- get_str ;; pu <- get_str ;; tu <- get_str ;; l <- get_list get_eatt ;;
+   f <- get_z ;; st <- get_z ;; sv <- get_z ;; ret (ECase (m =? 1) a t pu tu l f st sv))%Z.
 Definition get_case : dec tcase :=
   (k <- get_z ;;
    if (k =? 0) || (k =? 1) then (c <- get_rcase ;; ret (TRetry c))
    else if k =? 2 then (c <- get_jcase ;; ret (TJobs c))
-   else (c <- get_cacase ;; ret (TCA c)))%Z.
+   else if k =? 3 then (c <- get_cacase ;; ret (TCA c))
+   else (c <- get_ecase ;; ret (TE2E c)))%Z.
 
 Definition check_line (l : list Z) : Z :=
   match decode get_case l with
   | Some (TRetry c) => code (retry_model_ok c) (retry_spec_ok c)
   | Some (TJobs c) => code (jobs_model_ok c) (jobs_spec_ok c)
   | Some (TCA c) => code (ca_model_ok c) (ca_spec_ok c)
+  | Some (TE2E c) => code (e2e_model_ok c) (e2e_spec_ok c)
   | None => code_decode_error
   end.
 
@@ -258,5 +363,6 @@ Definition explain_line (l : list Z) : list Z :=
       [result_code r; te; Z.of_nat (length atts)]
   | Some (TJobs c) => [if jobs_model_ok c then 1 else 0]
   | Some (TCA c) => [if ca_model_ok c then 1 else 0]
+  | Some (TE2E c) => map (fun a => if eatt_model_ok c a then 1 else 0) (e_atts c)
   | None => []
   end.
